@@ -1508,11 +1508,18 @@ package gocql
 
 // Coalescing writer: never touches the connection itself; either hands the frame to the flusher
 // or reports the context / quit error with n == 0.
+// The caller's side of coalescing: the frame is either not handed over at all - then the answer is (0, error) -
+// or handed to the flusher once, with a result channel of its own, and then the answer is exactly what the
+// flusher reports for it (exec reads (0, error) as "nothing of this frame will ever be written", C01/C06).
 //@ func (w *writeCoalescer) writeContext
-//@   props C07
+//@   props C07 C01 C06
 //@   count_calls Write WriteTo Err
-//@   requires ctx != nil
+//@   requires ctx != nil && w.writeCh != nil
+//@   assume io.EOF != nil
 //@   ensures Write_calls == 0 && WriteTo_calls == 0
+//@   before_send[C01,C06,C07] ch == w.writeCh && same(val.data, p) && val.resultChan == resultChan && fresh(resultChan) && sent(w.writeCh) == 0
+//@   at_return[C01,C06,C07] sent(w.writeCh) == 0 ==> result0 == 0
+//@   at_return[C01,C06,C07] sent(w.writeCh) == 1 ==> recvd(resultChan) == 1
 
 // ---------------------------------------------------------------------------
 // marshal.go scalar codecs (C12: bytes are the CQL spec's, §6 of the native protocol
